@@ -259,10 +259,12 @@ pub fn c01_net(args: &Args) -> Report {
 
 fn c01_net_inner(args: &Args, rep: &mut Report) {
     let rt = tokio::runtime::Builder::new_multi_thread().worker_threads(4).enable_all().build().unwrap();
-    let routes = [(Tr::Tcp, "server"), (Tr::AsyncTcp, "async-server"), (Tr::WsInline, "ws-inline"), (Tr::WsOff, "ws-offreader")];
+    // the TCP servers twice: plain, and with (never-firing) read/write timeouts configured, which selects their
+    // timeout-wrapped write path
+    let routes = [(Tr::Tcp, "server"), (Tr::AsyncTcp, "async-server"), (Tr::WsInline, "ws-inline"), (Tr::WsOff, "ws-offreader"), (Tr::Tcp, "server+timeouts"), (Tr::AsyncTcp, "async-server+timeouts")];
     let mut addrs = vec![];
-    for (tr, _) in routes {
-        match srv::start_server(&rt, tr, router(tr == Tr::WsOff)) {
+    for (tr, name) in routes {
+        match srv::start_server(&rt, tr, router(tr == Tr::WsOff), name.ends_with("+timeouts")) {
             Ok(a) => addrs.push(a),
             Err(e) => {
                 rep.inconclusive(format!("could not start server: {e}"));
